@@ -22,24 +22,28 @@ def main():
         seed = int(os.environ.get("VERIF_SEED", "0") or 0)
     except ValueError:
         seed = 0
-    try:
-        core.use_repo()
-        mod = importlib.import_module(f"harness.props.{a.prop.lower()}")
-        if a.replay:
-            return mod.replay(a.replay)
-        chk = core.Check(a.prop, a.tier, seed)
-        status = mod.run(chk)
-        st = {k: v.get("cases") for k, v in chk.streams.items()}
-        print(f"{a.prop} tier={a.tier} seed={seed}: obligations {len(chk.discharged)}/{len(chk.obligations)} discharged, "
-              f"cases {st}, wall {round(__import__('time').time() - chk.t0, 1)} s, exit {status}")
-        return status
-    except core.Infra as ex:
-        print(f"INFRASTRUCTURE FAILURE ({a.prop}): {ex}", file=sys.stderr)
-        return 2
-    except Exception:
-        traceback.print_exc()
-        print(f"INFRASTRUCTURE FAILURE ({a.prop}): unexpected exception in the harness", file=sys.stderr)
-        return 2
+    # an infrastructure failure (a build or worker process killed under memory pressure, a lock held too long) is retried
+    # once after a pause before it is reported; it never turns into a VIOLATION line
+    for attempt in (1, 2):
+        try:
+            core.use_repo()
+            mod = importlib.import_module(f"harness.props.{a.prop.lower()}")
+            if a.replay:
+                return mod.replay(a.replay)
+            chk = core.Check(a.prop, a.tier, seed)
+            status = mod.run(chk)
+            st = {k: v.get("cases") for k, v in chk.streams.items()}
+            print(f"{a.prop} tier={a.tier} seed={seed}: obligations {len(chk.discharged)}/{len(chk.obligations)} discharged, "
+                  f"cases {st}, wall {round(__import__('time').time() - chk.t0, 1)} s, exit {status}")
+            return status
+        except core.Infra as ex:
+            print(f"INFRASTRUCTURE FAILURE ({a.prop}, attempt {attempt}): {ex}", file=sys.stderr)
+        except Exception:
+            traceback.print_exc()
+            print(f"INFRASTRUCTURE FAILURE ({a.prop}, attempt {attempt}): unexpected exception in the harness", file=sys.stderr)
+        if attempt == 1 and not a.replay:
+            __import__("time").sleep(20)
+    return 2
 
 
 if __name__ == "__main__":
